@@ -1549,7 +1549,7 @@ func (p *pathState) fallibleResult(v ssa.Value) bool {
 			return false
 		}
 	}
-	if call.Common().IsInvoke() {
+	if call.Common().IsInvoke() && call.Common().Method.Name() == "Err" {
 		// Err() of a context, scanner, ...: the state of an object, not the outcome of an action started here
 		return false
 	}
